@@ -667,6 +667,7 @@ impl Property for C19 {
         Meta {
             level: "exploration",
             rule: "each run is a seeded history of 1-40 append/fetch_or_append/lookup operations on one Storage under one equality relation (by-class, NaN-like, non-transitive) with an optional unwinding comparison; the abstract trace is the sequence of (operation, outcome: appended/found/unwound); a run is non-trivial if it appended >= 3 values or its unwind fault fired; distinct = distinct abstract traces among non-trivial runs",
+            lanes: "element types: struct, two-variant enum, zero-sized, 136-byte; irreflexive relation; `ne` inconsistent with `eq`; storages pre-filled with 3e3..9e3 (1/400 runs) and 2^16..1.1e6 (1/40000 runs) values",
             triple_measure: "(relation, operation, outcome)",
             item_measure: "n/a",
             assumptions: &[
